@@ -117,6 +117,14 @@ claim("C16", "PARTIAL (Roland histories out of reach). Cursor independence is C1
       "bounded exhaustive enumeration, said so in the evidence; an AST query shows every open() but export_wav's is read-only.",
       XT + "; symx for renaming; decision-tree enumeration for operation histories", "DESIGN.md 2/C16")
 
+claim("C20", "Layouts: the live construct structs (AKAI sample header, loop entry, program header, velocity zone; Roland sample parameter and directory records) are "
+      "walked into bit-vector models and z3 shows no record exists on which a field is read from other bytes / with another width, signedness or byte order "
+      "than an independently transcribed format table says (walker validated against the real parser each run). Value adapters (loop entry arithmetic, active "
+      "loop filtering, rate default, bool / loop-type / chain predicates) are executed symbolically on raw values. End to end, solver-chosen header values are "
+      "serialised by an independent writer, parsed by the real parsers and the real ls text is parsed back (AKAI sample; AKAI program with 1..2 keygroups, 0..4 "
+      "active zones, arbitrary next-keygroup addresses; CDDA track).",
+      "construct-object -> z3 bit-vector layout model; " + XT + "; decision-tree enumeration for the ls round trip", "DESIGN.md 2/C20")
+
 _pending = "check not built yet in this session (work in progress; see DESIGN.md section 2 for the planned obligations)"
 for _p in ["C01","C02","C03","C04","C05","C06","C07","C09","C10","C11","C12","C13","C14","C15","C16","C17","C18","C19","C20"]:
     if _p not in CHECKS:
